@@ -12,30 +12,6 @@ import (
 
 func init() { facts["rtmp"] = rtmpFacts }
 
-func (p *pkgInfo) funcDecl(recv, name string) *ast.FuncDecl {
-	for _, f := range p.files {
-		for _, d := range f.Decls {
-			fd, ok := d.(*ast.FuncDecl)
-			if !ok || fd.Name.Name != name {
-				continue
-			}
-			if recv == "" && fd.Recv == nil {
-				return fd
-			}
-			if fd.Recv != nil && len(fd.Recv.List) == 1 {
-				t := fd.Recv.List[0].Type
-				if st, ok := t.(*ast.StarExpr); ok {
-					t = st.X
-				}
-				if id, ok := t.(*ast.Ident); ok && id.Name == recv {
-					return fd
-				}
-			}
-		}
-	}
-	return nil
-}
-
 func selString(e ast.Expr) string {
 	switch x := e.(type) {
 	case *ast.Ident:
